@@ -15,12 +15,16 @@ SavedOrder == <<"rbx", "rbp", "r12", "r13", "r14", "r15">>
 VARIABLES i, j, phase, mA, rB
 vars == <<i, j, phase, mA, rB>>
 Rsp0 == <<0, 240, 255, 255, 255, 127, 0, 0>>
+NReg(c) == IF c.nargs < 6 THEN c.nargs ELSE 6
 Reg0(c, inp) == [n \in X!Regs |->
-   IF \E k \in 1 .. c.nargs : ArgRegs[k] = n THEN inp[CHOOSE k \in 1 .. c.nargs : ArgRegs[k] = n]
+   IF \E k \in 1 .. NReg(c) : ArgRegs[k] = n THEN inp[CHOOSE k \in 1 .. NReg(c) : ArgRegs[k] = n]
    ELSE IF n = "rsp" THEN Rsp0
    ELSE IF n \in X!CalleeSaved THEN c.regs0[n]
    ELSE <<165, 90, 165, 90, 165, 90, 165, 90>>]
-R0(c, inp) == [x |-> Reg0(c, inp), mem |-> <<>>, pc |-> 1, status |-> "run", steps |-> 0]
+\* on entry [rsp] holds the return address and [rsp + 8 (k - 6)] the k-th argument for k > 6
+RetAddr == <<16, 50, 84, 118, 152, 186, 220, 254>>
+Mem0(c, inp) == << <<Rsp0, RetAddr>> >> \o [k \in 1 .. (c.nargs - NReg(c)) |-> <<X!Add(Rsp0, <<8 * k, 0, 0, 0, 0, 0, 0, 0>>, 64), inp[6 + k]>>]
+R0(c, inp) == [x |-> Reg0(c, inp), mem |-> Mem0(c, inp), pc |-> 1, status |-> "run", steps |-> 0]
 Init == /\ i \in 1 .. Len(Cases) /\ j \in 1 .. Len(Cases[i].inputs) /\ phase = "run"
         /\ mA = InitMachine(Cases[i].A, 1, Cases[i].inputs[j], 4000)
         /\ rB = R0(Cases[i], Cases[i].inputs[j])
